@@ -189,22 +189,26 @@ Definition col_delete (col : option nat) (lines : list line) : list (option cell
   | Some c => (map (fun r => nth_error r c) lines, map (fun r => remove_at c r) lines)
   | None => (map (fun _ => None) lines, lines)
   end.
-(* DeleteColumn::undo: `for (i, ch) in deleted.iter().enumerate() { if let Some(ch) = ch { layer.lines[i].chars.insert(offset, *ch) } }` *)
+(* DeleteColumn::undo: `if lines.len() < deleted.len() { lines.resize(deleted.len(), Line::default()) }` (done by the caller: resize_to), then
+   `for (i, ch) in deleted.iter().enumerate() { if let Some(ch) = ch { let chars = &mut layer.lines[i].chars;
+      if chars.len() < offset { chars.resize(offset, invisible) } chars.insert(offset, *ch) } }`
+   Sites 43 (lines[i]) and 40 (Vec::insert) cannot fire after the two resizes (col_reinsert_ok in Proofs/DocRowColProofs.v); a negative column
+   (`as usize` = huge, site 44: resize beyond capacity) never meets a `Some`: its redo deletes nothing. *)
+Definition col_reinsert_row (col : option nat) (d : option cell) (row : line) : res line :=
+  match d with
+  | None => Ok row
+  | Some c => match col with
+              | Some n => vec_insert n c (resize_to row n invisible)
+              | None => Panic 44
+              end
+  end.
 Fixpoint col_reinsert (col : option nat) (deleted : list (option cell)) (lines : list line) : res (list line) :=
   match deleted with
   | [] => Ok lines
   | d :: dt =>
-    match d with
-    | None => match lines with
-              | [] => col_reinsert col dt []
-              | row :: lt => do r <- col_reinsert col dt lt; Ok (row :: r)
-              end
-    | Some c => match lines with
-                | [] => Panic 43                                                         (* layer.lines[i]: index out of range *)
-                | row :: lt =>
-                  do row' <- (match col with Some n => vec_insert n c row | None => Panic 40 end);
-                  do r <- col_reinsert col dt lt; Ok (row' :: r)
-                end
+    match lines with
+    | [] => match d with None => col_reinsert col dt [] | Some _ => Panic 43 end
+    | row :: lt => do row' <- col_reinsert_row col d row; do r <- col_reinsert col dt lt; Ok (row' :: r)
     end
   end.
 (* InsertColumn::redo: `if line.chars.len() >= offset { insert(offset, invisible) }`; undo: `if line.chars.len() > offset { remove(offset) }` *)
@@ -301,15 +305,19 @@ Definition xop_undo (o : xuop) (s : xstate) : res (xuop * xstate) :=
     match nth_error (xlayers s) i with
     | Some L =>
       do n <- as_index line;
-      do lines <- vec_insert n row (l_lines L);
+      (* `if lines.len() < line { lines.resize(line, Line::default()) }`, then Vec::insert (site 40 cannot fire any more) *)
+      do lines <- vec_insert n row (resize_to (l_lines L) n []);
       Ok (XDeleteRow i line [], with_xb s (upd_layer (xb s) i (fun _ => l_set_height (with_lines L lines) (l_h L + 1))))
     | None => Err 1
     end
   | XInsertRow i line _ =>
     match nth_error (xlayers s) i with
     | Some L =>
-      do n <- as_index line;
-      do '(row, lines) <- vec_remove n (l_lines L);
+      (* `if line < lines.len() { lines.remove(line) } else { Line::default() }` (a negative line is an index beyond every row) *)
+      let '(row, lines) := match col_index line with
+                           | Some n => match nth_error (l_lines L) n with Some r => (r, remove_at n (l_lines L)) | None => ([], l_lines L) end
+                           | None => ([], l_lines L)
+                           end in
       Ok (XInsertRow i line row, with_xb s (upd_layer (xb s) i (fun _ => l_set_height (with_lines L lines) (l_h L - 1))))
     | None => Err 1
     end
@@ -317,7 +325,7 @@ Definition xop_undo (o : xuop) (s : xstate) : res (xuop * xstate) :=
     match nth_error (xlayers s) i with
     | Some L =>
       let n := col_index col in
-      do lines <- col_reinsert n deleted (l_lines L);
+      do lines <- col_reinsert n deleted (resize_to (l_lines L) (length deleted) []);
       Ok (o, with_xb s (upd_layer (xb s) i (fun _ => l_set_width (with_lines L lines) (l_w L + 1))))
     | None => Err 1
     end
